@@ -198,6 +198,16 @@ def construct (a : Args) : Py.R Rule := do
          byweekday := byweekdayOf a, bynweekday := bynweekdayOf a,
          byhour, byminute, bysecond, timeset }
 
+/-- `if wkst is None: self._wkst = calendar.firstweekday()`: the week start the constructor works with, given the
+    PROCESS-WIDE first weekday `fwd` (`calendar.setfirstweekday`), which the code reads exactly when `wkst` is
+    not supplied -/
+def resolveW (fwd : Int) (a : Args) : Args := { a with wkst := some (a.wkst.getD fwd) }
+
+/-- `rrule.__init__` with the ambient first weekday as an explicit input.  `construct` is the case `fwd = 0`
+    (the interpreter's default, `calendar.firstweekday()` without any `setfirstweekday`), see
+    `constructW_zero`. -/
+def constructW (fwd : Int) (a : Args) : Py.R Rule := construct (resolveW fwd a)
+
 /-- `self._original_rule` together with the scalar attributes, i.e. the keyword arguments that
     `rrule.replace()` (with no overrides) passes to the constructor again:
     `{interval, count, dtstart, freq, until, wkst} ∪ _original_rule`.  A BY part is `none` when its key
